@@ -2,7 +2,7 @@
 //! the harness view, the case alphabet and the bodies that call the library.
 #![allow(dead_code)]
 use fast_image_resize as fir;
-use fir::images::{TypedImage, TypedImageRef};
+use fir::images::{TypedCroppedImageMut, TypedImage, TypedImageRef};
 use fir::pixels::{F32, U16x2, U8x4, U8};
 use fir::{CpuExtensions, FilterType, ImageView, ImageViewMut, MulDiv, PixelTrait, ResizeAlg, ResizeOptions, Resizer};
 
@@ -253,9 +253,30 @@ pub enum DstKind {
     Typed,
     /// harness view: the trait's default split path (UnsafeImageMut aliasing), loom-tracked or not
     Tracked(Track, bool),
+    /// mutable cropped view (left != top, different margins) of a plain TypedImage
+    CroppedTyped,
+    /// mutable cropped view of the harness view
+    CroppedTracked(Track, bool),
 }
 
-/// Run one body. Returns the destination bytes.
+impl DstKind {
+    /// the untracked kind with the same byte layout (for the sequential reference)
+    pub fn reference(&self) -> DstKind {
+        match self {
+            DstKind::Typed | DstKind::Tracked(..) => DstKind::Typed,
+            _ => DstKind::CroppedTyped,
+        }
+    }
+    pub fn is_cropped(&self) -> bool {
+        matches!(self, DstKind::CroppedTyped | DstKind::CroppedTracked(..))
+    }
+}
+
+/// placement of a cropped destination inside its parent: (left, top, right margin, bottom margin)
+pub const CROP_PLACE: (u32, u32, u32, u32) = (3, 1, 2, 4);
+
+/// Run one body. Returns the bytes of the whole destination buffer (for cropped destinations the
+/// whole parent, so that writes outside the view are visible too).
 pub fn run_body<P: Px>(c: &Case, dst_kind: &DstKind, sentinel: u8, expose: Option<&(dyn Fn(*const u8, usize) + Sync)>) -> Vec<u8> {
     let (sw, sh) = src_size(c);
     let mut seed = 0xC08u64 ^ ((c.dw as u64) << 32) ^ ((c.dh as u64) << 8) ^ c.body as u64;
@@ -269,42 +290,65 @@ pub fn run_body<P: Px>(c: &Case, dst_kind: &DstKind, sentinel: u8, expose: Optio
     let mut md = MulDiv::new();
     unsafe { md.set_cpu_extensions(be_of(c.be)) };
     let o = options(c);
-    macro_rules! go {
-        ($dst:expr, $bytes:expr) => {{
-            let mut dst = $dst;
-            if let Some(e) = expose {
-                let b: &[u8] = $bytes(&dst);
-                e(b.as_ptr(), b.len());
+    let inplace = c.body == Body::DivAlphaInplace;
+    let (pl, pt, pr, pb) = CROP_PLACE;
+    let (pw, ph) = if dst_kind.is_cropped() { (c.dw + pl + pr, c.dh + pt + pb) } else { (c.dw, c.dh) };
+    // initial content of the (parent) buffer: sentinel; for the in-place body the view holds the source
+    let mut init: Vec<P> = vec![P::sentinel(sentinel); pw as usize * ph as usize];
+    if inplace {
+        let (ox, oy) = if dst_kind.is_cropped() { (pl as usize, pt as usize) } else { (0, 0) };
+        for y in 0..c.dh as usize {
+            for x in 0..c.dw as usize {
+                init[(y + oy) * pw as usize + x + ox] = src_px[y * sw as usize + x];
             }
+        }
+    }
+    macro_rules! call {
+        ($dst:expr) => {{
             match (c.body, owned_src) {
-                (Body::MulAlpha, false) => md.multiply_alpha_typed(&src_ref, &mut dst).unwrap(),
-                (Body::MulAlpha, true) => md.multiply_alpha_typed(&src_own, &mut dst).unwrap(),
-                (Body::DivAlphaInplace, _) => md.divide_alpha_inplace_typed(&mut dst).unwrap(),
-                (_, false) => rz.resize_typed(&src_ref, &mut dst, &o).unwrap(),
-                (_, true) => rz.resize_typed(&src_own, &mut dst, &o).unwrap(),
+                (Body::MulAlpha, false) => md.multiply_alpha_typed(&src_ref, $dst).unwrap(),
+                (Body::MulAlpha, true) => md.multiply_alpha_typed(&src_own, $dst).unwrap(),
+                (Body::DivAlphaInplace, _) => md.divide_alpha_inplace_typed($dst).unwrap(),
+                (_, false) => rz.resize_typed(&src_ref, $dst, &o).unwrap(),
+                (_, true) => rz.resize_typed(&src_own, $dst, &o).unwrap(),
             }
-            let b: &[u8] = $bytes(&dst);
-            b.to_vec()
         }};
     }
-    let inplace = c.body == Body::DivAlphaInplace;
+    fn as_bytes<P>(p: &[P]) -> &[u8] {
+        unsafe { std::slice::from_raw_parts(p.as_ptr() as *const u8, std::mem::size_of_val(p)) }
+    }
     match dst_kind {
-        DstKind::Typed => {
-            let mut px: Vec<P> = if inplace { src_px.clone() } else { vec![P::sentinel(sentinel); c.dw as usize * c.dh as usize] };
-            go!(TypedImage::<P>::from_pixels_slice(c.dw, c.dh, &mut px).unwrap(), |d: &TypedImage<P>| -> &[u8] {
-                let p = d.pixels();
-                unsafe { std::slice::from_raw_parts(p.as_ptr() as *const u8, std::mem::size_of_val(p)) }
-            })
-        }
-        DstKind::Tracked(mode, rp) => {
-            let mut t = Tracked::<P>::new(c.dw, c.dh, P::sentinel(sentinel), *mode, *rp);
-            if inplace {
-                t.data.copy_from_slice(&src_px);
+        DstKind::Typed | DstKind::CroppedTyped => {
+            let mut px = init;
+            if let Some(e) = expose {
+                let b = as_bytes(&px);
+                e(b.as_ptr(), b.len());
             }
-            go!(t, |d: &Tracked<P>| -> &[u8] {
-                let b = d.bytes();
-                unsafe { std::slice::from_raw_parts(b.as_ptr(), b.len()) }
-            })
+            {
+                let mut parent = TypedImage::<P>::from_pixels_slice(pw, ph, &mut px).unwrap();
+                if dst_kind.is_cropped() {
+                    let mut view = TypedCroppedImageMut::from_ref(&mut parent, pl, pt, c.dw, c.dh).unwrap();
+                    call!(&mut view);
+                } else {
+                    call!(&mut parent);
+                }
+            }
+            as_bytes(&px).to_vec()
+        }
+        DstKind::Tracked(mode, rp) | DstKind::CroppedTracked(mode, rp) => {
+            let mut t = Tracked::<P>::new(pw, ph, P::sentinel(sentinel), *mode, *rp);
+            t.data.copy_from_slice(&init);
+            if let Some(e) = expose {
+                let b = t.bytes();
+                e(b.as_ptr(), b.len());
+            }
+            if dst_kind.is_cropped() {
+                let mut view = TypedCroppedImageMut::from_ref(&mut t, pl, pt, c.dw, c.dh).unwrap();
+                call!(&mut view);
+            } else {
+                call!(&mut t);
+            }
+            t.bytes().to_vec()
         }
     }
 }
